@@ -34,6 +34,9 @@ pub struct Cfg {
     /// the OTI only arrives in-band after the object has been attached to the FDT
     #[serde(default)]
     pub crafted_fdt: bool,
+    /// receiver configured with object_receive_once = false (a repeated transfer restarts the object)
+    #[serde(default)]
+    pub receive_twice: bool,
 }
 
 #[derive(Serialize, Deserialize, Clone, Debug)]
@@ -144,7 +147,7 @@ pub fn body(p: &Prepared, cfg: &Cfg, ch: &mut Chooser) -> Obs {
     flute::verif::clock_reset(0);
     let mut obs = Obs::default();
     let res = catch(|| {
-        let mut rx = Some(MultiReceiver::new(mon.builder(), Some(recv_config(true)), false));
+        let mut rx = Some(MultiReceiver::new(mon.builder(), Some(recv_config(!cfg.receive_twice)), false));
         let ep = endpoint();
         let mut t = p.rec.pkts[0].0;
         for &i in &p.seq {
@@ -255,9 +258,12 @@ fn configs(thorough: bool) -> Vec<Cfg> {
                         continue;
                     }
                     for order in 0..7u8 {
-                        v.push(Cfg { scheme, e, b, parity, len, cenc, inband_fti, count, md5, order, crafted_fdt: false });
+                        v.push(Cfg { scheme, e, b, parity, len, cenc, inband_fti, count, md5, order, crafted_fdt: false, receive_twice: false });
+                        if count == 2 && order <= 2 {
+                            v.push(Cfg { scheme, e, b, parity, len, cenc, inband_fti, count, md5, order, crafted_fdt: false, receive_twice: true });
+                        }
                         if inband_fti && order <= 4 && (thorough || order != 1) {
-                            v.push(Cfg { scheme, e, b, parity, len, cenc, inband_fti, count, md5, order, crafted_fdt: true });
+                            v.push(Cfg { scheme, e, b, parity, len, cenc, inband_fti, count, md5, order, crafted_fdt: true, receive_twice: false });
                         }
                     }
                 }
